@@ -51,9 +51,9 @@ KEYS = [
     "TRACKED_KEY_MARKER_1", "TRACKED'KEY_MARKER_2", "TRACKED\"KEY_MARKER_3\\", "TRACKED\nKEY_MARKER_4",
 ]
 TRACKED = [f"open('{C}'", "import " + AU.CANARY_MODULE, "__import__('os')", "KEY_MARKER_1", "KEY_MARKER_2", "KEY_MARKER_3", "KEY_MARKER_4"]
-CLASS_NAMES = ["import", "class", "from", "None", "list", "dict", "type", "a-b", "x y", "", "1abc", "coercer", "convert", "data", "a.b", "a'b", "a\"b", "a\nb", "{}", "é", "loader", "dumper",
+CLASS_NAMES = ["a²", "x①y", "__debug__", "µ", "ﬁ", "import", "class", "from", "None", "list", "dict", "type", "a-b", "x y", "", "1abc", "coercer", "convert", "data", "a.b", "a'b", "a\"b", "a\nb", "{}", "é", "loader", "dumper",
                f"X');open('{C}','w');('", "lambda", "__class__", "model_identity", "Model\\", "#"]
-FUNC_NAMES = ["coercer", "convert", "data", "import", "class", "list", "a-b", "x y", "", "é", "src", "dst", "ctx", "coerce_S_to_D", "_closure_maker", f"f');open('{C}','w');('", "a\nb", "lambda"]
+FUNC_NAMES = ["a²", "__debug__", "x①", "coercer", "convert", "data", "import", "class", "list", "a-b", "x y", "", "é", "src", "dst", "ctx", "coerce_S_to_D", "_closure_maker", f"f');open('{C}','w');('", "a\nb", "lambda"]
 
 _n = itertools.count()
 USED = {"ids": set(), "keys": set(), "class_names": set(), "func_names": set()}
@@ -151,7 +151,7 @@ def program(ctx, rng, ids, keys, forms, defaults_list, omit, forbid, dt, label):
                           f"{what} generation failed for ids={desc['ids']} keys={desc['keys']}: {o.exc!r} cause={cause!r:.300}", desc)
     if ld.kind != "ok" or dp.kind != "ok":
         return None
-    values = {fid: (7 + i if rng.random() < 0.7 or defaults[fid] is dataclasses.MISSING else defaults[fid]) for i, fid in enumerate(ids)}
+    values = {fid: (7 + i if rng.random() < 0.7 or defaults[fid] is dataclasses.MISSING else int(defaults[fid])) for i, fid in enumerate(ids)}   # plain ints as data
     obj = cls(**values)
     want = expected_dump(ids, mp, values, defaults, omit)
     with AU.armed():
@@ -191,7 +191,7 @@ def run_model_case(ctx, rng, idx):
     forms = [rng.choice(["plain", "plain", "nested", "nested-shared", "default"]) for _ in range(n)]
     # private fields (leading underscore) are skipped at dumping unless they are mapped explicitly (documented): map them
     forms = ["plain" if ids[i].startswith("_") and forms[i] == "default" else forms[i] for i in range(n)]
-    defaults = [dataclasses.MISSING if rng.random() < 0.5 else rng.choice([0, 5, -1]) for _ in range(n)]
+    defaults = [dataclasses.MISSING if rng.random() < 0.5 else rng.choice([0, 5, -1, EvilInt(5), EvilInt(0)]) for _ in range(n)]   # an int whose repr() is program text
     omit, forbid = rng.random() < 0.4, rng.random() < 0.4
     dt = rng.choice(DEBUG_MODES)
     if idx < 2:
@@ -342,7 +342,30 @@ def run_converter_case(ctx, rng, idx):
             ctx.violation("hostile-name-outside-string-constant", f"{fnm}: {leaked} occurs outside string constants / comments", {"source": src[-2000:]})
 
 
-HOSTILE_CONSTANTS = ["two\nlines", "a\r\nb", "  indented\n    more\n", "'" * 3, '"' * 3, "back\\slash\\", "{braces} $dollar %s", f"');open('{C}','w');('", " sep", "tab\t", ("t\nu", 1), ["l\ni"],
+class EvilStr(str):
+    """Values whose repr() is program text: a generator that pastes repr(value) of anything but an exact builtin executes it."""
+    __slots__ = ()
+
+    def __repr__(self):
+        return f"open('{C}', 'w')"
+
+
+class EvilInt(int):
+    def __repr__(self):
+        return f"(open('{C}', 'w') and 0)"
+
+
+class EvilFloat(float):
+    def __repr__(self):
+        return f"(open('{C}', 'w') and 0.0)"
+
+
+class EvilBytes(bytes):
+    def __repr__(self):
+        return f"open('{C}', 'w')"
+
+
+HOSTILE_CONSTANTS = [EvilStr("plain text"), EvilInt(7), EvilFloat(1.5), EvilBytes(b"raw"), (EvilStr("in tuple"), 1), [EvilInt(3)], {"k": EvilStr("v")}, "two\nlines", "a\r\nb", "  indented\n    more\n", "'" * 3, '"' * 3, "back\\slash\\", "{braces} $dollar %s", f"');open('{C}','w');('", " sep", "tab\t", ("t\nu", 1), ["l\ni"],
                      {"k\n": "v\n"}]
 
 
@@ -397,7 +420,8 @@ def run_converter_special(ctx, rng, which, ids):  # noqa: C901
         const = rng.choice(HOSTILE_CONSTANTS)
         s_ = make_dataclass("S", [("a", int)])
         d_ = make_dataclass("D", [("a", int), ("c", typing.Any)])
-        made = attempt(get_converter, s_, d_, recipe=[link_constant("c", value=const)])
+        with AU.armed():
+            made = attempt(get_converter, s_, d_, recipe=[link_constant("c", value=const)])
         src = s_(0)
 
         def check(o):
